@@ -179,10 +179,16 @@ func (e *Engine) setupSyncIntrinsics() {
 	// (previously Put) object is also possible in reality; callers in this
 	// code base Reset() what they Get, see poolDirty mode.
 	in["(*sync.Pool).Get"] = func(e *Engine, fr *frame, a []Value) Value {
+		e.schedPoint() // in schedule mode another goroutine may Put or Get first
 		p := a[0].(*Value)
 		if lst := e.poolItems[p]; len(lst) > 0 && e.poolDirty {
 			v := lst[len(lst)-1]
 			e.poolItems[p] = lst[:len(lst)-1]
+			if vcs := e.poolVCs[p]; len(vcs) == len(lst) && e.sched.cur != nil {
+				vc := vcs[len(vcs)-1]
+				e.poolVCs[p] = vcs[:len(vcs)-1]
+				e.acquire(e.sched.cur, &vc)
+			}
 			return v
 		}
 		st := (*p).(Struct)
@@ -197,7 +203,13 @@ func (e *Engine) setupSyncIntrinsics() {
 		if e.poolDirty {
 			p := a[0].(*Value)
 			e.poolItems[p] = append(e.poolItems[p], a[1])
+			vc := vclock{}
+			if e.sched.cur != nil {
+				e.release(e.sched.cur, &vc)
+			}
+			e.poolVCs[p] = append(e.poolVCs[p], vc)
 		}
+		e.schedPoint() // the object may now be handed to another goroutine
 		return nil
 	}
 
